@@ -219,6 +219,10 @@ func (d *reqDumper) op(level syntaxLevel) {
 			return
 		}
 		fmt.Fprintf(&d.out, "platform = %d", n)
+		if len(d.buf) < 4 {
+			d.err = io.ErrUnexpectedEOF
+			return
+		}
 		d.buf = d.buf[4:]
 	case opNotarized:
 		d.out.WriteString("notarized")
@@ -242,11 +246,12 @@ func (d *reqDumper) getData() []byte {
 	if !ok {
 		return nil
 	}
-	aligned := length
-	if n := length % 4; n != 0 {
+	// widen before aligning so that a length near 2^32 can't wrap around
+	aligned := uint64(length)
+	if n := aligned % 4; n != 0 {
 		aligned += 4 - n
 	}
-	if uint32(len(d.buf)) < aligned {
+	if uint64(len(d.buf)) < aligned {
 		d.err = io.ErrUnexpectedEOF
 		return nil
 	}
